@@ -30,7 +30,8 @@ func init() {
 			"R12 the client verifies a body under the algorithm of the descriptor's digest (digest.NewDigest(D.Algorithm(), h) compared with D), never a fixed one. " +
 			"R13 the router separates the repository name from the path with suffix / last-occurrence operations only (a name may contain /blobs/uploads, /manifests/, … as path elements). " +
 			"R14 (shared with C04.R8) a refused blobWriter.Write keeps nothing; R15 (shared with C05.R6) the client's listing iterators are re-runnable. " +
-			"R16 (shared with C04.R10) every successful return of blobWriter.Write lies behind the update of w.size (must-pass-through on the CFG).",
+			"R16 (shared with C04.R10) every successful return of blobWriter.Write lies behind the update of w.size (must-pass-through on the CFG). " +
+			"R17 (shared with C01.R11) a value that carries a descriptor and the running hash of its content takes the hash from <that descriptor>.Digest.Algorithm(): content addressed by any registered algorithm verifies through the client.",
 		NotDecided: "equality of bytes/descriptors on values, URL escaping of unusual names, behaviour under server options, and the Construct->Parse round trip on values are not decided.",
 		Technique:  "static analysis: extraction of request literals and dispatch table from SSA, comparison with reviewed tables, argument provenance, header-name set agreement",
 	})
@@ -112,6 +113,7 @@ func runC03(c *core.Ctx) {
 	routerSplitsAtTheLastKeyword(c, "C03.R13")
 	failedMethodLeavesState(c, "C03.R14", "ociclient", "blobWriter", "Write")
 	listingIteratorsRerunnable(c, "C03.R15", []string{"ociclient"}, 1)
+	hashFieldFromOwnDigest(c, "C03.R17", "ociclient")
 	successfulMethodPassesThrough(c, "C03.R16", "ociclient", "blobWriter", "Write", "size")
 }
 
